@@ -54,6 +54,10 @@ def build(case, ck, counter):
         ns[f"A_{p['name']}"] = (getattr(jaxtyping, case.get("cat", "Float")) if i in case.get("cat_params", []) else Float)[jax.Array, gc.spec_of(p)]
         # a numeric default (the argument is passed explicitly anyway) on the trailing parameters
         parts.append(f"{p['name']}: A_{p['name']}" + (" = 1.0" if p.get("default") else ""))
+    if case.get("int_scalar"):
+        # an unrelated 0-d integer argument (a step counter, a seed): it takes no part in any axis
+        ns["A_kint"] = jaxtyping.Int[jax.Array, ""]
+        parts.append("kint: A_kint" + (" = None" if any(p.get("default") for p in case["params"]) else ""))  # (always passed explicitly)
     retstr = ""
     if case["ret"] is not None:
         ns["A_ret"] = Float[jax.Array, gc.spec_of(case["ret"])]
@@ -62,7 +66,7 @@ def build(case, ck, counter):
     else:
         shape = ()
     # the result depends on every argument (so that grad has something to differentiate) but has a static shape
-    dep = " + ".join(f"jnp.sum({p['name']})" for p in case["params"]) or "0.0"
+    dep = " + ".join([f"jnp.sum({p['name']})" for p in case["params"]] + (["kint"] if case.get("int_scalar") else [])) or "0.0"
     src = f"def fn({', '.join(parts)}){retstr}:\n    __count.append(1)\n    return jnp.zeros({shape!r}, dtype='float32') + ({dep}) * 0.0\n"
     exec(compile(src, "<vf-c17>", "exec"), ns)
     with warnings.catch_warnings():
@@ -116,6 +120,11 @@ def check_case(ctx, case):
         "random": [jnp.asarray(np.asarray(rng.randn(*s), dtype="float32")) if s else jnp.asarray(0.5) for s in shapes],
         "nan": [jnp.full(s, np.nan, dtype="float32") for s in shapes],
     }
+    nfloat = len(shapes)
+    if case.get("int_scalar"):
+        fills["zeros"].append(jnp.zeros((), dtype="int32"))
+        fills["random"].append(jnp.asarray(5, dtype="int32"))
+        fills["nan"].append(jnp.asarray(-1, dtype="int32"))
     results = {}
     for name, args in fills.items():
         counter.clear()
@@ -132,12 +141,12 @@ def check_case(ctx, case):
             raise Violation("value-or-history-dependence", case, f"{k}: {v} but eager-zeros: {eager}; {desc}")
     args = fills["random"]
     B = case["batch"]
-    in_axes = tuple(case["in_axes"])
+    in_axes = tuple(case["in_axes"]) + ((None,) if case.get("int_scalar") else ())
     bargs = [a if ax is None else jnp.zeros(batched(a.shape, ax, B), dtype="float32") for a, ax in zip(args, in_axes)]
-    in_axes2 = tuple(case["in_axes2"])
+    in_axes2 = tuple(case["in_axes2"]) + ((None,) if case.get("int_scalar") else ())
     bbargs = [a if ax is None else jnp.zeros(batched(a.shape, ax, 2), dtype="float32") for a, ax in zip(bargs, in_axes2)]
     scalar = lambda *a: jnp.sum(f(*a))  # noqa: E731
-    argnums = tuple(range(len(args)))
+    argnums = tuple(range(nfloat))  # (the integer argument is not differentiated)
     trans = {
         "jit": lambda: jax.jit(f)(*args),
         "vmap": lambda: jax.vmap(f, in_axes=in_axes)(*bargs),
@@ -155,7 +164,7 @@ def check_case(ctx, case):
         trans = {k: v for k, v in trans.items() if k in case["quick_subset"]}
     if any(s == () for s in shapes):
         # Python scalars for the rank-0 arguments: the tracers are weakly typed float32[] -- same shape and dtype as jnp.zeros(())
-        pyargs = [0.5 if a.shape == () else a for a in args]
+        pyargs = [0.5 if (a.shape == () and i < nfloat) else a for i, a in enumerate(args)]
         trans["jit-pyscalar"] = lambda: jax.jit(f)(*pyargs)
         trans["grad-pyscalar"] = lambda: jax.grad(scalar, argnums=argnums)(*pyargs)
         trans["eval_shape-pyscalar"] = lambda: jax.eval_shape(f, *pyargs)
@@ -178,7 +187,7 @@ def check_case(ctx, case):
     ctx.extra["transformed_calls"] = ctx.extra.get("transformed_calls", 0) + len(trans)
     ctx.note([[(gc.spec_of(p), p["shape"]) for p in case["params"]], case["ret"] and (gc.spec_of(case["ret"]), case["ret"]["shape"]), in_axes, in_axes2, ck],
              (len(case["params"]) >= 2 and shared) or not ref,
-             classes=([f"category-{case.get('cat')}"] if case.get("cat_params") else []) + (["python-scalar-arguments"] if any(s == () for s in shapes) else []) + [f"verdict-{eager}", f"nparams-{len(case['params'])}", f"checker-{ck}"] + (["shared-name"] if shared else []) + (["some-in_axes-None"] if None in in_axes else []) + (["parameter-named-like-axis-in-expression"] if case.get("shadowing_names") else []),
+             classes=([f"category-{case.get('cat')}"] if case.get("cat_params") else []) + (["python-scalar-arguments"] if any(s == () for s in shapes) else []) + (["unrelated-int-scalar-argument"] if case.get("int_scalar") else []) + [f"verdict-{eager}", f"nparams-{len(case['params'])}", f"checker-{ck}"] + (["shared-name"] if shared else []) + (["some-in_axes-None"] if None in in_axes else []) + (["parameter-named-like-axis-in-expression"] if case.get("shadowing_names") else []),
              sample={"params": [(p["name"], gc.spec_of(p), p["shape"]) for p in case["params"]], "ret": case["ret"] and (gc.spec_of(case["ret"]), case["ret"]["shape"]),
                      "in_axes": in_axes, "verdict": eager})
 
@@ -228,6 +237,7 @@ def c17_case(draw):
     case["batch"] = draw(st.sampled_from([2, 3, 1]))
     case["checker"] = draw(st.sampled_from(["typeguard", "beartype"]))
     # some parameters are annotated with another dtype category than Float (all arrays are float32)
+    case["int_scalar"] = draw(st.sampled_from([True, False, False]))
     case["cat"] = draw(st.sampled_from(["Float16", "Float32", "Inexact", "Float64", "Shaped", "Int", "Num", "BFloat16"]))
     case["cat_params"] = sorted(i for i in range(n) if draw(st.integers(0, 3)) == 0) if draw(st.integers(0, 1)) == 0 else []
     return case
